@@ -18,7 +18,8 @@ RULE = ("ri in [0.02,0.95] and the extremes 0.001 .. 0.995, nr in 5..18, azimuth
         "indicator, masked modes exactly 0 outside, each pixel inside within [min,max] of the polar function over the 4x4 "
         "block of polar cells around its independently computed (r^2, theta) indices. Non-trivial = nfunc >= 6 and ri "
         "outside [0.19,0.21]. Distinct = canonical JSON."
-        " Also: the set_pctr(basis, ncp, ncmar) + pol2car route with margins None, 0..5; mask as bool / numpy.bool_ / int.")
+        " Also: the set_pctr(basis, ncp, ncmar) + pol2car route with margins None, 0..5; mask as bool / numpy.bool_ / int."
+        " Law degenerate_variances: the ri at which two neighbouring variances cross is found by bisection and the rendering judged there.")
 ASSUMPTIONS = ["pupil average = uniform mean over the equal-area polar grid (radp, 2 pi k / npp)", "separations in pupil diameters: rho = |x - x'| / 2 for radii normalised to 1",
                "off-diagonal tolerance 1e-9 of the largest variance when npp = 5 nr, 1e-4 otherwise (azimuthal aliasing of the r^(5/3) kernel)",
                "rendering judged by a validity predicate (order-1 interpolation is a convex combination of neighbouring polar cells)"]
